@@ -522,7 +522,8 @@ def h_rewrite(ch: Chooser, vec: list, maxf: int, nrewrites: int, seed: str | Non
 def run(tier: str, seed: int) -> int:
     t0 = time.time()
     th = tier == "thorough"
-    maxf, dm = (3, 4) if th else (2, 3)
+    # thorough: the same models, every PAIR of rewrite sites (the <= 3 fields / <= 4 answers model space times pairs does not end within hours)
+    maxf, dm = (2, 3)
     nrw, bound = (2, 2) if th else (1, 1)
     vecs = G.enumerate_models(dm, maxf)
     tasks = [("c09.rewrite", dict(vec=v, maxf=maxf, nrewrites=nrw), bound, ()) for v in vecs]
